@@ -62,12 +62,16 @@ pub fn check_ref_type_compact(
                 return Ok(());
             }
 
-            let result = check_general_type_compact(
-                context,
-                &origin_type,
-                compact_type,
-                check_guard.next_level()?,
-            );
+            // 递归 alias 再次遇到同一个 (alias, compact) 时直接报告递归, 否则每一层都会在
+            // union 的每个分支下重复展开, 深度上限挡不住指数级的工作量.
+            let in_progress = (source_id.clone(), compact_type.clone());
+            if context.alias_in_progress.contains(&in_progress) {
+                return Err(TypeCheckFailReason::TypeRecursion);
+            }
+            let next_guard = check_guard.next_level()?;
+            context.alias_in_progress.push(in_progress);
+            let result = check_general_type_compact(context, &origin_type, compact_type, next_guard);
+            context.alias_in_progress.pop();
             if result.is_err() && should_retry_alias_nominal_check(compact_type) {
                 return check_ref_class(context, source_id, compact_type, check_guard);
             }
